@@ -16,7 +16,9 @@ PROPS_FILE = 'ScnVerif/Props/C01.lean'
 TRANSLATORS = [tr_graph.translate]
 RULE = (
     'per kernel (9 elastic kernels of conversion/tof.py; quick 6000 correspondence + 5000 oracle cases per kernel, thorough 150000 + 100000): operand values log-uniform over 1e-9..1e9 SI in double '
-    'precision (1e-6..1e6 and results inside the float32 range in single precision), scattering angles in (0, pi] '
+    'precision (1e-6..1e6 and results inside the float32 range as soon as one operand is float32), element types: 40 % all float64, '
+    '20 % all float32, 40 % an independent type per argument from float64/float32/int64/int32 (float32 geometry with float64 data and '
+    'vice versa, integer data); tolerance by the dtype of the RESULT (float64: 1e-11, float32: 1e-5); scattering angles in (0, pi] '
     'with pi itself, 1e-12..1e-3 neighbourhoods of pi and 1e-12..1e-2 neighbourhoods of 0 over-weighted; units drawn '
     'per argument from ns/us/ms/s, mm/cm/m/km, angstrom/nm/m, ueV/meV/eV/J, deg/rad, 1/angstrom,1/nm,1/m; operand '
     'shapes scalar, 1-d, 2-d broadcast with per-pixel geometry, 1-d data with scalar geometry, and binned (event) '
@@ -137,10 +139,25 @@ def exact_value(kernel, units, elem, h, mn) -> Decimal:
     return kernel.ref(tk.exact(h), tk.exact(mn), phys) / tk.out_scale(kernel, units)
 
 
-def gen_cases(rng, kernel, dtype, shape, n, ranges):
+MODES = ['float64', 'float32', 'mixed']
+
+
+def draw_mode(rng) -> str:
+    r = rng.random()
+    return 'float64' if r < 0.4 else 'float32' if r < 0.6 else 'mixed'
+
+
+def gen_cases(rng, kernel, mode, shape, n, ranges=None):
+    """mode 'float64' / 'float32': every operand of that type; 'mixed': an independent element type per argument
+    (float32 geometry with float64 data and vice versa, integer data or geometry).  Any float32 operand narrows the
+    value ranges to those in which no float32 intermediate overflows or underflows."""
     units = {a: rng.choice(C01_UNITS[kind]) for a, kind in kernel.args}
-    dtypes = {a: dtype for a, _ in kernel.args}
-    values = {a: [tk.draw_value(rng, kind, units[a], dtype, ranges) for _ in range(n)] for a, kind in kernel.args}
+    if mode == 'mixed':
+        dtypes = {a: rng.choice(['float64', 'float64', 'float32', 'float32', 'int64', 'int32']) for a, _ in kernel.args}
+    else:
+        dtypes = {a: mode for a, _ in kernel.args}
+    ranges = tk.WIDE32 if 'float32' in dtypes.values() else tk.WIDE
+    values = {a: [tk.draw_value(rng, kind, units[a], dtypes[a], ranges) for _ in range(n)] for a, kind in kernel.args}
     return units, dtypes, values
 
 
@@ -186,10 +203,8 @@ def correspond(ctx):
         kernel = tk.KERNELS[name]
         done = 0
         while done < per_kernel:
-            dtype = 'float64' if rng.random() < 0.6 else 'float32'
             shape = rng.choice(SHAPES)
-            ranges = tk.WIDE if dtype == 'float64' else tk.WIDE32
-            units, dtypes, values = gen_cases(rng, kernel, dtype, shape, batch, ranges)
+            units, dtypes, values = gen_cases(rng, kernel, draw_mode(rng), shape, batch)
             res = call_kernel(kernel, units, dtypes, shape, values)
             jobs.append((kernel, units, dtypes, shape, res))
             done += len(res['elems'])
@@ -202,16 +217,18 @@ def correspond(ctx):
     k = 0
     maxdev = {'double': 0.0, 'single': 0.0}
     for kernel, units, dtypes, shape, res in jobs:
-        cls = tk.precision_class(dtypes)
+        cls = tk.result_class(res.get('dtype', 'float64'))  # tolerance of the RESULT dtype
         for i, elem in enumerate(res['elems']):
             tag, mval = tk.untok(outs[k])
             k += 1
             ident = (kernel.name, tuple(sorted(units.items())), tuple(sorted(dtypes.items())),
                      tuple(tk.tok(elem[a], dtypes[a]) for a, _ in kernel.args))
             ctx.count(f'corr:{kernel.name}:{tk.SHORT[dtypes[kernel.args[0][0]]]}:{shape}')
+            ctx.count('corr:dtypes:' + ('uniform' if len(set(dtypes.values())) == 1 else 'mixed'))
             if not res['ok']:
                 ctx.case(ident, True)
-                if tag != 'err':
+                ctx.count(f'corr:impl-{res["err"]}')
+                if tag != 'err' or res['err'] != 'err:dtype':
                     ctx.disagree(witness(kernel, units, dtypes, elem), res['err'], outs[k - 1], 'implementation raised, model did not')
                 continue
             ival = float(res['out'][i])
@@ -263,13 +280,16 @@ def _correspond_graph(ctx):
 # ---- oracle ----------------------------------------------------------------------------------------
 
 def _check_elements(ctx, kernel, units, dtypes, shape, res, h, mn, tag):
-    cls = tk.precision_class(dtypes)
     if not res['ok']:
+        if res['err'] == 'err:dtype' and tk.unsupported_by_scipp(kernel.name, dtypes):
+            ctx.count(f'skipped:scipp-has-no-int32-pow:{kernel.name}')
+            return
         for elem in res['elems'][:1]:
             ctx.case((tag, kernel.name, 'raise', tuple(sorted(units.items()))), True)
             _viol(ctx, f'C01:raises:{kernel.name}', f'{kernel.name} raised {res["err"]} on valid positive input',
                           {**witness(kernel, units, dtypes, elem), 'shape': shape})
         return
+    cls = tk.result_class(res['dtype'])  # float64 result: 1e-11, float32 result: 1e-5, whatever the operand types
     want_unit = kernel.out_unit(units)
     if not tk.unit_is(res['unit'], want_unit):
         _viol(ctx, f'C01:unit:{kernel.name}', f'{kernel.name} returned unit {res["unit"]}, documented {want_unit}',
@@ -278,17 +298,21 @@ def _check_elements(ctx, kernel, units, dtypes, shape, res, h, mn, tag):
     for i, elem in enumerate(res['elems']):
         want = exact_value(kernel, units, elem, h, mn)
         ident = (tag, kernel.name, tuple(sorted(units.items())), tuple(tk.tok(elem[a], dtypes[a]) for a, _ in kernel.args))
-        if cls == 'single' and not _f32_ok(want):
+        if 'float32' in dtypes.values() and not _f32_ok(want):
             ctx.count('oracle:f32-range-skipped')
             ctx.case(ident, False)
             continue
         got = float(res['out'][i])
         ctx.case(ident, True)
         ctx.count(f'oracle:{kernel.name}:{cls}')
+        ctx.count('oracle:dtypes:' + ('uniform' if len(set(dtypes.values())) == 1 else 'mixed'))
         err = tk.rel_err(got, want)
         if not err < tk.TOL[cls]:
-            _viol(ctx, f'C01:formula:{kernel.name}',
-                          f'{kernel.name} is off its defining formula by {err:.3e} relative ({cls} precision, allowed {tk.TOL[cls]})',
+            mixed = tk.mixed_precision_key('C01', kernel.name, dtypes, res['dtype'], err)
+            _viol(ctx, mixed or f'C01:formula:{kernel.name}',
+                          f'{kernel.name} is off its defining formula by {err:.3e} relative ({res["dtype"]} result, allowed {tk.TOL[cls]})'
+                          + (f'; the float32 operand(s) {tk.f32_operands(dtypes)} are combined in single precision before the promotion to float64'
+                             if mixed else ''),
                           {**witness(kernel, units, dtypes, elem, got, want), 'shape': shape, 'rel_err': err})
 
 
@@ -301,10 +325,8 @@ def oracle(ctx, deep):
         kernel = tk.KERNELS[name]
         done = 0
         while done < per_kernel:
-            dtype = 'float64' if rng.random() < 0.6 else 'float32'
             shape = rng.choice(SHAPES)
-            ranges = tk.WIDE if dtype == 'float64' else tk.WIDE32
-            units, dtypes, values = gen_cases(rng, kernel, dtype, shape, batch, ranges)
+            units, dtypes, values = gen_cases(rng, kernel, draw_mode(rng), shape, batch)
             res = call_kernel(kernel, units, dtypes, shape, values)
             _check_elements(ctx, kernel, units, dtypes, shape, res, h, mn, 'oracle')
             done += len(res['elems'])
@@ -411,58 +433,78 @@ def _routes(da, start, targets):
 
 def _oracle_routes(ctx, h, mn, n):
     """all routes through the conversion graphs (sc.transform_coords with the graphs of graph/tof.py) from one
-    neutron's tof to wavelength / energy / dspacing / Q: each route's result against the truth, hence pairwise"""
-    import scipp as sc
+    neutron's tof to wavelength / energy / dspacing / Q: each route's result against the truth, hence pairwise.
+    The coordinates tof / Ltotal / two_theta carry independent element types (float64 or float32) in 60 % of the
+    cases; each route's tolerance is that of its result dtype."""
+    import numpy as np
 
     for _ in range(n):
         t, L, th = _draw_neutron(ctx.rng)
-        tv, Lv, thv = (float(t / tk.SCALE['us']), float(L), float(th))
-        t2, L2, th2 = tk.exact(tv) * tk.SCALE['us'], tk.exact(Lv), tk.exact(thv)
-        truth = _truth(h, mn, t2, L2, th2)
-        base = {'Ltotal': sc.array(dims=['x'], values=[Lv], unit='m'), 'two_theta': sc.array(dims=['x'], values=[thv], unit='rad')}
-        da0 = sc.DataArray(sc.ones(dims=['x'], shape=[1]), coords={'tof': sc.array(dims=['x'], values=[tv], unit='us'), **base})
-        results = []  # (route description, target, variable)
-        try:
-            first = _routes(da0, 'tof', ['wavelength', 'energy', 'dspacing', 'Q'])
-            for tgt, v in first.items():
-                results.append((f'tof->{tgt}', tgt, v))
-            for mid in ('wavelength', 'energy', 'Q'):
-                if mid not in first:
-                    continue
-                da1 = sc.DataArray(sc.ones(dims=['x'], shape=[1]), coords={mid: first[mid], **base})
-                second = _routes(da1, mid, ['wavelength', 'energy', 'dspacing', 'Q'])
-                for tgt, v in second.items():
-                    results.append((f'tof->{mid}->{tgt}', tgt, v))
-                    if tgt in ('wavelength', 'energy') and tgt != mid:
-                        da2 = sc.DataArray(sc.ones(dims=['x'], shape=[1]), coords={tgt: v, **base})
-                        for tgt3, v3 in _routes(da2, tgt, ['wavelength', 'energy', 'dspacing', 'Q']).items():
-                            results.append((f'tof->{mid}->{tgt}->{tgt3}', tgt3, v3))
-        except Exception as e:  # noqa: BLE001
-            _viol(ctx, 'C01:route-raises', f'transform_coords over the elastic graphs raised {tk.err_kind(e)}: {e!s:.120}',
-                          {'t_us': tk.bits64(tv), 'L_m': tk.bits64(Lv), 'two_theta_rad': tk.bits64(thv)})
-            continue
-        for route, tgt, v in results:
-            ctx.case(('route', route, tk.bits64(tv), tk.bits64(Lv), tk.bits64(thv)), True)
-            ctx.count(f'oracle:route:{route}')
-            want = truth[tgt] / tk.SCALE[CANON_UNIT[tgt]]
-            if not tk.unit_is(v.unit, CANON_UNIT[tgt]):
-                _viol(ctx, f'C01:route-unit:{tgt}', f'route {route} yields unit {v.unit}', {'route': route})
+        if ctx.rng.random() < 0.4:
+            dts = ('float64', 'float64', 'float64')
+        else:
+            dts = tuple(ctx.rng.choice(['float64', 'float32']) for _ in range(3))
+        vals = [float(t / tk.SCALE['us']), float(L), float(th)]
+        vals = [float(np.float32(v)) if d == 'float32' else v for v, d in zip(vals, dts)]
+        if dts[2] == 'float32':  # keep inside (0, pi] after rounding to single precision
+            vals[2] = min(vals[2], float(np.nextafter(np.float32(math.pi), np.float32(0))))
+        _route_one(ctx, h, mn, vals[0], vals[1], vals[2], dts)
+
+
+def _route_one(ctx, h, mn, tv, Lv, thv, dts):
+    import scipp as sc
+
+    t2, L2, th2 = tk.exact(tv) * tk.SCALE['us'], tk.exact(Lv), tk.exact(thv)
+    truth = _truth(h, mn, t2, L2, th2)
+    wit0 = {'t_us': tk.bits64(tv), 'L_m': tk.bits64(Lv), 'two_theta_rad': tk.bits64(thv), 'dtypes': list(dts)}
+    base = {'Ltotal': sc.array(dims=['x'], values=[Lv], unit='m', dtype=dts[1]),
+            'two_theta': sc.array(dims=['x'], values=[thv], unit='rad', dtype=dts[2])}
+    da0 = sc.DataArray(sc.ones(dims=['x'], shape=[1]),
+                       coords={'tof': sc.array(dims=['x'], values=[tv], unit='us', dtype=dts[0]), **base})
+    results = []  # (route description, target, variable)
+    try:
+        first = _routes(da0, 'tof', ['wavelength', 'energy', 'dspacing', 'Q'])
+        for tgt, v in first.items():
+            results.append((f'tof->{tgt}', tgt, v))
+        for mid in ('wavelength', 'energy', 'Q'):
+            if mid not in first:
                 continue
-            err = tk.rel_err(float(v.values[0]), want)
-            if not err < 1e-11:
-                _viol(ctx, f'C01:routes-disagree:{tgt}',
-                              f'route {route} yields {tgt} off the definition by {err:.3e} (so two routes to {tgt} disagree)',
-                              {'route': route, 'target': tgt, 't_us': tk.bits64(tv), 'L_m': tk.bits64(Lv), 'two_theta_rad': tk.bits64(thv),
-                               'got': repr(float(v.values[0])), 'expected': f'{want:.20E}'})
+            da1 = sc.DataArray(sc.ones(dims=['x'], shape=[1]), coords={mid: first[mid], **base})
+            second = _routes(da1, mid, ['wavelength', 'energy', 'dspacing', 'Q'])
+            for tgt, v in second.items():
+                results.append((f'tof->{mid}->{tgt}', tgt, v))
+                if tgt in ('wavelength', 'energy') and tgt != mid:
+                    da2 = sc.DataArray(sc.ones(dims=['x'], shape=[1]), coords={tgt: v, **base})
+                    for tgt3, v3 in _routes(da2, tgt, ['wavelength', 'energy', 'dspacing', 'Q']).items():
+                        results.append((f'tof->{mid}->{tgt}->{tgt3}', tgt3, v3))
+    except Exception as e:  # noqa: BLE001
+        _viol(ctx, 'C01:route-raises', f'transform_coords over the elastic graphs raised {tk.err_kind(e)}: {e!s:.120}', wit0)
+        return
+    for route, tgt, v in results:
+        ctx.case(('route', route, tk.bits64(tv), tk.bits64(Lv), tk.bits64(thv), dts), True)
+        ctx.count(f'oracle:route:{route}')
+        ctx.count('oracle:route-dtypes:' + ('uniform' if len(set(dts)) == 1 else 'mixed'))
+        want = truth[tgt] / tk.SCALE[CANON_UNIT[tgt]]
+        if not tk.unit_is(v.unit, CANON_UNIT[tgt]):
+            _viol(ctx, f'C01:route-unit:{tgt}', f'route {route} yields unit {v.unit}', {'route': route, **wit0})
+            continue
+        err = tk.rel_err(float(v.values[0]), want)
+        tol = tk.TOL[tk.result_class(str(v.dtype))]
+        if not err < tol:
+            names = dict(zip(('tof', 'Ltotal', 'two_theta'), dts))
+            mixed = tk.mixed_precision_key('C01', 'route', names, str(v.dtype), err)
+            _viol(ctx, (mixed + f'->{tgt}') if mixed else f'C01:routes-disagree:{tgt}',
+                          f'route {route} yields {tgt} ({v.dtype}) off the definition by {err:.3e}, allowed {tol} (so two routes to {tgt} disagree)',
+                          {'route': route, 'target': tgt, **wit0, 'got': repr(float(v.values[0])), 'expected': f'{want:.20E}'})
 
 
-def _roundtrip_values(w, th, unit_w, dtype):
+def _roundtrip_values(w, th, unit_w, dtype_w, dtype_th):
     """(lambda->E->lambda, lambda->Q->lambda, Q*d) evaluated on the real kernels"""
     import scipp as sc
     from scippneutron.conversion import tof as K
 
-    wv = sc.array(dims=['x'], values=[w], unit=unit_w, dtype=dtype)
-    tv = sc.array(dims=['x'], values=[th], unit='rad', dtype=dtype)
+    wv = sc.array(dims=['x'], values=[w], unit=unit_w, dtype=dtype_w)
+    tv = sc.array(dims=['x'], values=[th], unit='rad', dtype=dtype_th)
     e = K.energy_from_wavelength(wavelength=wv)
     w1 = K.wavelength_from_energy(energy=e)
     q = K.Q_from_wavelength(wavelength=wv, two_theta=tv)
@@ -474,26 +516,33 @@ def _roundtrip_values(w, th, unit_w, dtype):
 
 def _oracle_roundtrips(ctx, h, mn, n):
     for _ in range(n):
-        dtype = 'float64' if ctx.rng.random() < 0.6 else 'float32'
-        cls = 'double' if dtype == 'float64' else 'single'
+        r = ctx.rng.random()
+        if r < 0.4:
+            dtype_w = dtype_th = 'float64'
+        elif r < 0.6:
+            dtype_w = dtype_th = 'float32'
+        else:
+            dtype_w, dtype_th = ctx.rng.choice(['float64', 'float32']), ctx.rng.choice(['float64', 'float32'])
         unit_w = ctx.rng.choice(C01_UNITS['wavelength'])
-        w = tk.draw_value(ctx.rng, 'wavelength', unit_w, dtype, tk.WIDE if dtype == 'float64' else tk.WIDE32)
-        th = tk.draw_value(ctx.rng, 'angle', 'rad', dtype, tk.WIDE)
-        wit = {'wavelength': tk.tok(w, dtype), 'two_theta_rad': tk.tok(th, dtype), 'unit': unit_w, 'dtype': dtype}
-        _check_roundtrip(ctx, w, th, unit_w, dtype, cls, wit, report=True)
+        w = tk.draw_value(ctx.rng, 'wavelength', unit_w, dtype_w, tk.WIDE if dtype_w == 'float64' else tk.WIDE32)
+        th = tk.draw_value(ctx.rng, 'angle', 'rad', dtype_th, tk.WIDE)
+        wit = {'wavelength': tk.tok(w, dtype_w), 'two_theta_rad': tk.tok(th, dtype_th), 'unit': unit_w,
+               'dtype': dtype_w, 'dtype_two_theta': dtype_th}
+        _check_roundtrip(ctx, w, th, unit_w, dtype_w, dtype_th, wit, report=True)
 
 
-def _check_roundtrip(ctx, w, th, unit_w, dtype, cls, wit, report):
+def _check_roundtrip(ctx, w, th, unit_w, dtype_w, dtype_th, wit, report):
     try:
-        w1, w2, qd = _roundtrip_values(w, th, unit_w, dtype)
+        w1, w2, qd = _roundtrip_values(w, th, unit_w, dtype_w, dtype_th)
     except Exception as e:  # noqa: BLE001
         if report:
             _viol(ctx, 'C01:roundtrip-raises', f'round trip raised {tk.err_kind(e)}', wit)
         return True
     lam = tk.exact(w) * tk.SCALE[unit_w] / tk.SCALE['angstrom']
     bad = False
-    for key, got, want in (('lambda-E-lambda', float(w1.values[0]), lam), ('lambda-Q-lambda', float(w2.values[0]), lam),
-                           ('Q-times-d', float(qd.values[0]), 2 * tk.PI)):
+    for key, var, want in (('lambda-E-lambda', w1, lam), ('lambda-Q-lambda', w2, lam), ('Q-times-d', qd, 2 * tk.PI)):
+        got = float(var.values[0])
+        cls = tk.result_class(str(var.dtype))
         if report:
             ctx.case(('roundtrip', key, tuple(sorted(wit.items()))), True)
             ctx.count(f'oracle:roundtrip:{key}:{cls}')
@@ -501,7 +550,7 @@ def _check_roundtrip(ctx, w, th, unit_w, dtype, cls, wit, report):
         if not err < tk.TOL[cls]:
             bad = True
             if report:
-                _viol(ctx, f'C01:roundtrip:{key}', f'round trip {key} is off by {err:.3e} relative ({cls} precision)',
+                _viol(ctx, f'C01:roundtrip:{key}', f'round trip {key} is off by {err:.3e} relative ({var.dtype} result)',
                               {**wit, 'which': key, 'got': repr(got), 'expected': f'{want:.20E}'})
     return bad
 
@@ -512,7 +561,7 @@ def replay(ctx, payload):
     w = payload.get('witness', {})
     key = payload.get('key', '')
     h, mn = tk.constants()
-    if key.startswith(('C01:formula:', 'C01:unit:', 'C01:raises:')):
+    if key.startswith(('C01:formula:', 'C01:unit:', 'C01:raises:', 'C01:mixed-precision:')) and 'kernel' in w:
         kernel = tk.KERNELS[w['kernel']]
         units, dtypes = w['units'], w['dtypes']
         elem = {a: tk.untok(t)[1] for a, t in w['operands'].items()}
@@ -526,12 +575,11 @@ def replay(ctx, payload):
         want = exact_value(kernel, units, elem, h, mn)
         err = tk.rel_err(float(res['out'][0]), want)
         print(f'{kernel.name}: got {float(res["out"][0])!r} expected {want:.17E} rel.err {err:.3e}')
-        return not err < tk.TOL[tk.precision_class(dtypes)]
+        return not err < tk.TOL[tk.result_class(res['dtype'])]
     if key.startswith('C01:roundtrip'):
-        dtype = w['dtype']
-        cls = 'double' if dtype == 'float64' else 'single'
-        return _check_roundtrip(ctx, tk.untok(w['wavelength'])[1], tk.untok(w['two_theta_rad'])[1], w['unit'], dtype, cls, w, report=False)
-    if key.startswith(('C01:routes-disagree', 'C01:route')):
+        return _check_roundtrip(ctx, tk.untok(w['wavelength'])[1], tk.untok(w['two_theta_rad'])[1], w['unit'], w['dtype'],
+                                w.get('dtype_two_theta', w['dtype']), w, report=False)
+    if key.startswith(('C01:routes-disagree', 'C01:route', 'C01:mixed-precision:route')):
         import struct
 
         class _C:  # minimal ctx collecting violations
@@ -558,7 +606,7 @@ def replay(ctx, payload):
         import random
 
         c.rng = random.Random(0)
-        _replay_routes(c, h, mn, *vals)
+        _replay_routes(c, h, mn, *vals, w.get('dtypes', ['float64'] * 3))
         for k, what in c.v:
             print(k, what)
         return bool(c.v)
@@ -587,17 +635,8 @@ def replay(ctx, payload):
     return False
 
 
-def _replay_routes(c, h, mn, tv, Lv, thv):
-    class _Rng:
-        pass
-
-    global _draw_neutron
-    saved = _draw_neutron
-    try:
-        _draw_neutron = lambda rng: (tk.exact(tv) * tk.SCALE['us'], tk.exact(Lv), tk.exact(thv))  # noqa: E731
-        _oracle_routes(c, h, mn, 1)
-    finally:
-        _draw_neutron = saved
+def _replay_routes(c, h, mn, tv, Lv, thv, dts=('float64', 'float64', 'float64')):
+    _route_one(c, h, mn, tv, Lv, thv, tuple(dts))
 
 
 def _replay_graph(c, h, mn, t, L, th):
